@@ -17,6 +17,8 @@ type seqPlan struct {
 var seqPlans = map[string]seqPlan{
 	"C01": {"ttl", "single", []string{"value", "range"}, true, false,
 		"case = fresh cache (random flavor/constructor/options) + 40-120 state-aware PRNG calls over 1-6 keys with catalogue TTLs and clock moves aimed at expiry instants (or a bulk wave case); non-trivial = at least one call on an expired-uncleaned or exactly-at-boundary entry; distinct = hash of the call sequence"},
+	"C02": {"ttl", "single", []string{"value"}, false, false,
+		"sequential component: the TTL semantics every linearization is measured against, incl. calls whose evicted callback outlasts a TTL (the callback moves the virtual clock)"},
 	"C05": {"ttl", "single", []string{"value"}, true, false,
 		"sequential: GetOrCompute / Compute call counts of the user function and results against the TTL model, incl. bulk waves that grow the table (the call that triggers a grow retries internally and must still run the function once)"},
 	"C06": {"callback", "single", []string{"callback"}, true, false,
